@@ -64,6 +64,21 @@ def render_token(t):
             return v
         if form == "sq":
             return render_sq(v)
+        if form in ("dqc", "sqc"):      # with a backslash-newline continuation in the middle
+            r = render_dq(v, raw_newline=False) if form == "dqc" else render_sq(v)
+            inner = r[1:-1]
+            k = len(inner) // 2
+            while k > 0 and inner[k - 1] == "\\" and (k < 2 or inner[k - 2] != "\\"):
+                k -= 1
+            # never split an escape pair: only split at a position not preceded by an odd run of backslashes
+            j = k
+            run = 0
+            while j > 0 and inner[j - 1] == "\\":
+                run += 1
+                j -= 1
+            if run % 2:
+                k -= 1
+            return r[0] + inner[:k] + "\\\n" + inner[k:] + r[-1]
         if form == "dqn":
             return render_dq(v, raw_newline=False)
         return render_dq(v)
@@ -281,3 +296,10 @@ def mutate_tokens(draw, toks, max_mut=3):
         else:
             toks[i] = draw(st.sampled_from([P("="), P("+="), P("{"), P("}"), P("("), P(")"), P(","), S("x"), S("1"), S("")]))
     return toks
+
+
+@st.composite
+def item_list(draw, opts, ctxflags, max_items=8, allow_unknown=True, bad_p=0.0):
+    """list of items (each a token list) of a top-level body"""
+    n = draw(st.integers(0, max_items))
+    return [draw(item(opts, ctxflags, 0, False, allow_unknown, bad_p)) for _ in range(n)]
